@@ -4,36 +4,30 @@
    Clean(depth) / Save / Load(depth) / Observe, every arrival order (the op list is arbitrary),
    every equal-work choice. *)
 From BR Require Import Base.Prelude Base.Compact Headers.Tree Headers.TreeBasics Headers.TreeInv
-     Headers.TreeSteps Headers.TreeStream Headers.TreeProps Headers.TreeExample Headers.TreeMaxWork.
+     Headers.TreeSteps Headers.TreeStream Headers.TreeProps Headers.TreeExample Headers.TreeHorizon.
 Open Scope N_scope.
 
-(* The reported tip is a header held in memory whose cumulative work is maximal among all headers
-   held in memory and strictly above every header of its own ancestry (the best-chain history,
-   including what Clean/Load dropped from memory). *)
-Theorem C01_max_work_partial : forall cfg g ops,
+(* The reported tip carries maximal cumulative work among ALL accepted headers the repository
+   holds - in memory or dropped from memory by Clean / Load - in every reachable state of every
+   history (submissions in any order, marks, un-marks, Clean, Save, Load, equal-work choices).
+   Proof: headers out of memory lie strictly below every header in memory, one per height
+   (Headers/TreeHorizon.v), hence are ancestors of the tip. *)
+Theorem C01_max_work : forall cfg g ops,
+  cfg_ok cfg -> genesis_ok g -> ops_ok cfg (init g) ops ->
+  let s := fst (run cfg (init g) ops) in
+  forall a, In a (nodes s) -> n_work a <= work_of (nodes s) (tip s).
+Proof. exact max_work_every_history. Qed.
+Print Assumptions C01_max_work.
+
+(* ... and it is a header held in memory, strictly above every header of its own ancestry *)
+Theorem C01_tip_in_memory : forall cfg g ops,
   cfg_ok cfg -> genesis_ok g -> ops_ok cfg (init g) ops ->
   let s := final cfg g ops in
   exists tn, find (tip s) (nodes s) = Some tn /\ n_mem tn = true /\
     (forall n, In n (nodes s) -> n_mem n = true -> n_work n <= n_work tn) /\
     (forall a, In a (ancestors (nodes s) (tip s)) -> n_work a <= n_work tn).
 Proof. exact tip_max_work. Qed.
-Print Assumptions C01_max_work_partial.
-(* partial with respect to invalid marking only: see C01_max_work below for the full statement on
-   histories without marks.  With marks the statement over headers out of memory needs the
-   invariant "every header out of memory is an ancestor of every header in memory" (true of the
-   model: Clean and Load only take best-chain headers out of memory, and a mark never reaches at
-   or below the memory horizon), which is not proved; the correspondence compares against the
-   full statement. *)
-
-(* Full statement for every history without invalid marking (submissions in any order, Clean,
-   Save, Load, equal-work choices): the reported tip carries maximal cumulative work among ALL
-   accepted headers the repository holds, in memory or not. *)
-Theorem C01_max_work : forall cfg g ops,
-  cfg_ok cfg -> genesis_ok g -> ops_ok cfg (init g) ops -> Forall markfree ops ->
-  let s := fst (run cfg (init g) ops) in
-  forall a, In a (nodes s) -> n_work a <= work_of (nodes s) (tip s).
-Proof. exact max_work_all. Qed.
-Print Assumptions C01_max_work.
+Print Assumptions C01_tip_in_memory.
 
 (* The reported chain is exactly the tip's ancestry: linked by previous-hash, heights 0..tip. *)
 Theorem C01_linked : forall cfg g ops,
